@@ -606,14 +606,25 @@ func clFreeFeed(c *Ctx) {
 	if n == 0 {
 		undecidedf("no call of AccessBarrier.callb found")
 	}
-	// the destructor forwards exactly the non-nil reference it was given
+	// the destructor forwards exactly the non-nil reference it was given, always
 	for _, a := range destr.AnonFuncs {
 		afi := p.Info(a)
+		var send ssa.Instruction
 		for _, in := range afi.Instrs {
 			if s, ok := in.(*ssa.Send); ok {
+				send = in
 				c.Check(strip(s.X) == ssa.Value(a.Params[0]) && afi.guardedByCmp(in, token.NEQ, isValue(a.Params[0]), isNilConst), a, in, "destructor forwards its (non-nil) object reference", "")
 			}
 		}
+		if send == nil {
+			c.Check(false, a, nil, "destructor forwards every non-nil object reference to the free workers", "unlinked nodes attached to a terminated session are never freed")
+			continue
+		}
+		// every path to a return either passes the send or takes the (ref == nil) edge
+		okAll := afi.PathAvoidingEdges(nil, isReturn, func(x ssa.Instruction) bool { return x == send },
+			afi.edgeWhere(token.EQL, isValue(a.Params[0]), isNilConst)) == nil
+		c.Check(okAll, a, send, "destructor forwards every non-nil object reference to the free workers",
+			"on some path a terminated session's node list is dropped instead of being handed to the free workers: the barrier reports the session destructed, but its unlinked nodes and items are never freed (Close only sweeps linked nodes)")
 	}
 }
 
